@@ -583,6 +583,129 @@ def rule_bin2_pitch(prog, res, rule="R-BIN2-PITCH"):
     return n
 
 
+def rule_clamp_fresh(prog, res, la, rule="R-CLAMP-FRESH"):
+    """simcam_set clamps the requested shape against limits that depend on the settings themselves (the
+    sensor size divided by the binning): a helper whose summary reads the camera's stored properties and
+    whose result (an out-parameter local) is used afterwards must run after the new settings were adopted
+    (self->properties = *settings) on every path, otherwise the limits are those of the PREVIOUS
+    configuration and the reported shape exceeds (or needlessly shrinks below) what the new one allows."""
+    f = prog.func("simcam_set")
+    res.touched(f)
+    sp = [p_ for p_ in f.params if p_.get("r") == "CameraProperties" and p_.get("pd")]
+    if not sp:
+        raise AnalysisBroken("simcam_set: settings parameter not found")
+    sp = sp[0]
+
+    def adopts(s_):
+        for lv, op, rhs, w in ir.writes_of(s_):
+            p_ = ir.ap(lv) or ""
+            if op == "=" and p_.endswith("->properties") and isinstance(rhs, dict) and \
+                    any(isinstance(y, dict) and y.get("k") == "var" and y.get("id") == sp["id"] for y in ir.walk(rhs)):
+                return True
+        return False
+    n = 0
+    for b, i, s_ in f.all_stmts():
+        for c in ir.calls_in(s_):
+            g = prog.resolve(c.get("fn"), f) if c.get("fn") else None
+            if g is None or not g.blocks:
+                continue
+            outs = [ir.strip(a) for a in c.get("args", []) if isinstance(ir.strip(a), dict) and ir.strip(a).get("k") == "addr"
+                    and ir.strip(ir.strip(a)["e"]).get("k") == "var" and "p" not in ir.strip(ir.strip(a)["e"])]
+            if not outs:
+                continue
+            reads_props = sorted(k[1] for (k, m) in la.effects(g) if m == "r" and k[0] == "SimulatedCamera" and str(k[1]).startswith("properties"))
+            if not reads_props:
+                continue
+            n += 1
+            ok, w = paths.all_paths_pass(f, "entry", {(b.id, i)}, adopts)
+            inst = "simcam_set: %s (reads %s) runs on the adopted settings" % (g.name, ", ".join(reads_props[:3]))
+            if ok:
+                res.oblige(rule, inst, True, "self->properties = *settings on every path before the call", f.loc(s_))
+            else:
+                res.fail(rule, inst, "%s|simcam_set|%s" % (rule, g.name), f.loc(s_),
+                         "simcam_set calls %s, which derives its result from the camera's stored %s, before the new settings are stored: the requested shape is clamped against the limits "
+                         "of the previous configuration (a larger binning than before yields a region beyond the sensor; a smaller one is shrunk for no reason)"
+                         % (g.name, ", ".join(reads_props[:3])), {"path_blocks": w})
+    if n == 0:
+        raise AnalysisBroken("simcam_set no longer derives limits from a helper that reads the stored properties")
+    return n
+
+
+def rule_vec_align(prog, res, rule="R-VEC-ALIGN"):
+    """The vectorised kernel reads and writes the image through pointers to a vector
+    type; an access through such a pointer assumes the alignment of the pointee type
+    (32 for __m256i - the compiler emits aligned moves -, 1 for the unaligned variant
+    __m256i_u).  The buffers it is given come from the allocator the camera uses
+    (realloc / malloc: aligned to 16 bytes; aligned_alloc(N): N).  Every vector-typed
+    pointer variable and cast in the kernel must assume no more than the allocator
+    guarantees, otherwise the first access faults on a buffer that happens to sit at
+    an address that is 16 mod 32."""
+    fs = [g for g in prog.all_funcs() if g.name == "bin2" and g.blocks]
+    if not fs:
+        raise AnalysisBroken("bin2 not found")
+    # what the allocator of the image buffers guarantees
+    guarantee = None
+    alloc_fn = None
+    for g in prog.all_funcs():
+        if not g.file.endswith("simulated.camera.c") or not g.blocks:
+            continue
+        for b, i, s_ in g.all_stmts():
+            for lv, op, rhs, w in ir.writes_of(s_):
+                p_ = ir.ap(lv) or ""
+                if p_.endswith("render_data") or p_.endswith("frame_data"):
+                    for c in ir.calls_in(rhs) if isinstance(rhs, dict) else []:
+                        alloc_fn = c.get("fn")
+    def guarantee_of(name, depth=0):
+        if name in ("malloc", "realloc", "calloc"):
+            return 16
+        if name in ("aligned_alloc", "memalign"):
+            return None
+        g = prog.func(name, required=False) if name else None
+        if g is None or not g.blocks or depth > 3:
+            return None
+        vals = []
+        for b, i, s_ in g.all_stmts():
+            for c in ir.calls_in(s_):
+                if c.get("fn") in ("aligned_alloc", "memalign") and c.get("args") and ir.is_const(c["args"][0]):
+                    vals.append(ir.strip(c["args"][0])["v"])
+                elif c.get("fn") == "posix_memalign" and len(c.get("args", [])) > 1 and ir.is_const(c["args"][1]):
+                    vals.append(ir.strip(c["args"][1])["v"])
+                else:
+                    v = guarantee_of(c.get("fn"), depth + 1) if c.get("fn") in ("malloc", "realloc", "calloc") or (c.get("fn") and prog.func(c.get("fn"), required=False) is not None and c.get("fn") != name) else None
+                    if v:
+                        vals.append(v)
+        return min(vals) if vals else None
+    guarantee = guarantee_of(alloc_fn) if alloc_fn else None
+    if guarantee is None:
+        raise AnalysisBroken("the allocator of the simulated camera's image buffers was not recognised (%s)" % alloc_fn)
+    n = 0
+    for f in fs:
+        res.touched(f)
+        worst = None
+        for b, i, s_ in f.all_stmts():
+            for y in ir.walk(s_):
+                if isinstance(y, dict) and y.get("vec_size") and y.get("k") in ("var", "cast"):
+                    if worst is None or y.get("vec_align", 0) > worst[0]:
+                        worst = (y.get("vec_align", 0), y, s_)
+            if s_.get("k") == "decl" and isinstance(s_.get("var"), dict) and s_["var"].get("vec_size"):
+                y = s_["var"]
+                if worst is None or y.get("vec_align", 0) > worst[0]:
+                    worst = (y.get("vec_align", 0), y, s_)
+        if worst is None:
+            res.notes.append("R-VEC-ALIGN: %s (%s) uses no vector-typed pointers" % (f.name, f.file))
+            continue
+        n += 1
+        inst = "%s: vector accesses assume no more alignment than %s() gives (%d bytes)" % (f.name, alloc_fn, guarantee)
+        if worst[0] <= guarantee:
+            res.oblige(rule, inst, True, "largest alignment assumed by a vector-typed pointer: %d" % worst[0], f.loc(worst[2]))
+        else:
+            res.fail(rule, inst, "%s|bin2|%s" % (rule, worst[1].get("n", "cast")), f.loc(worst[2]),
+                     "bin2 accesses the image through %s, a pointer to a %d-byte vector type that assumes %d-byte alignment (aligned vector moves), but the render buffer comes from %s(), "
+                     "which aligns to %d bytes only: with binning > 1 the streamer thread faults as soon as the buffer sits at an address that is not a multiple of %d"
+                     % (worst[1].get("n", "a cast"), worst[1].get("vec_size"), worst[0], alloc_fn, guarantee, worst[0]))
+    return n
+
+
 def run(ctx, res):
     prog = ctx.program()
     res.extra["explanation"] = EXPLANATION
@@ -605,6 +728,10 @@ def run(ctx, res):
     res.require_min("R-INDEX", 2)
     res.require_min("R-SHAPE", 6)
     res.guard(rule_bin2_pitch, prog, res)
+    res.guard(rule_vec_align, prog, res)
+    res.guard(rule_clamp_fresh, prog, res, LockAnalysis(prog))
+    res.require_min("R-CLAMP-FRESH", 1)
+    res.require_min("R-VEC-ALIGN", 1)
     res.require_min("O-PROV", 4)
     res.require_min("R-REALLOC-COVERS", 2)
     res.require_min("GUARD-DOM", 2)
